@@ -46,6 +46,7 @@ MANIFEST = {
             'dollar / length formats against their closed forms, the '
             'deprecated named formats equal to the like-named modifier on '
             'strings; each also with null= at either end.',
+    'more': 'Also: etc= / null= / missing= texts with white space at their edges; truncation texts with tabs, line ends, no-break and ideographic spaces.',
     'note': 'Trusted: the closed forms in this driver (Python str methods, '
             'format(n, ","), urllib round trip as identity, the truncation '
             'rule as stated).  The inner order of several modifiers is not '
